@@ -47,7 +47,15 @@ Inductive op :=
 | OStoreSet (v : option N)        (* the persisted id is overwritten / removed from outside *)
 | OReconnect                      (* connection dropped and re-established *)
 | OCrash (p : point) (k : N)      (* the core dies while a new environment of k tasks stands at p *)
-| OAnswer.                        (* one reconciliation answer is processed *)
+| OAnswer                         (* one reconciliation answer is processed *)
+| OCreateHeld (k : N) (s : N)     (* CreateEnvironment up to the LAUNCH WINDOW: the k tasks are accepted
+                                     by the master and in the roster, locked by the new environment, but
+                                     their first TASK_RUNNING has not been delivered (not ACTIVE yet);
+                                     the master has them as s = STAGING, or STARTING / RUNNING with the
+                                     update still on its way *)
+| ORun (t : N)                    (* the executor of t reports TASK_RUNNING (for a held task: the first) *)
+| OLost (t : N).                  (* the master declares t lost (agent unreachable) but still has it:
+                                     TASK_LOST update, the task stays alive at the master *)
 
 Inductive call :=
 | CSubscribe (carried : bool) (id : N)
@@ -75,6 +83,20 @@ Definition master_kill (ts : list N) (m : list mtask) : list mtask :=
 
 Definition roster_deactivate (ts : list N) (ros : list rtask) : list rtask :=
   map (fun r => if memN (rt_id r) ts then mkR (rt_id r) (rt_env r) false else r) ros.
+
+Definition roster_activate (ts : list N) (ros : list rtask) : list rtask :=
+  map (fun r => if memN (rt_id r) ts then mkR (rt_id r) (rt_env r) true else r) ros.
+
+(* the master's view of the live tasks ts becomes s *)
+Definition master_state (ts : list N) (s : N) (m : list mtask) : list mtask :=
+  map (fun x => if memN (mt_id x) ts && mt_alive x then mkM (mt_id x) (mt_fw x) true s else x) m.
+
+Definition alive_at (t : N) (m : list mtask) : bool :=
+  existsb (fun x => N.eqb (mt_id x) t && mt_alive x) m.
+
+Definition set_master_roster (w : world) (m : list mtask) (ros : list rtask) : world :=
+  mkW (w_failover w) (w_store w) (w_nextfw w) m (w_mem w) ros (w_envs w)
+      (w_ntask w) (w_nenv w) (w_pending w).
 
 Fixpoint new_ids (from : N) (k : nat) : list N :=
   match k with O => [] | S k' => from :: new_ids (N.succ from) k' end.
@@ -149,7 +171,20 @@ Definition create (w : world) (k : N) : world * list call :=
   let '(w1, c1) := cleanup w in
   let '(w2, c2) := launch w1 k in (w2, c1 ++ c2).
 
-(* ---------- one reconciliation answer (handleMessage, REASON_RECONCILIATION) ---------- *)
+(* the launch window: the deployment has accepted the offers and entered the k tasks into the
+   roster; what the master knows of them is STAGING unless the harness says STARTING / RUNNING *)
+Definition held_state (s : N) : N :=
+  if N.eqb s mesos_starting || N.eqb s mesos_running then s else mesos_staging.
+
+Definition create_held (w : world) (k s : N) : world * list call :=
+  let ids := new_ids (w_ntask w) (N.to_nat k) in
+  let '(w1, c1) := create w k in
+  (set_master_roster w1 (master_state ids (held_state s) (w_master w1))
+                     (roster_deactivate ids (w_roster w1)), c1).
+
+(* ---------- one reconciliation answer (handleMessage, REASON_RECONCILIATION) ----------
+   KILL, or else the ordinary path of a status update (updateTaskStatus): a roster task the
+   master reports in an activating state (TASK_RUNNING) becomes ACTIVE, whatever it was *)
 Definition answer (w : world) : world * list call :=
   match w_pending w with
   | [] => (w, [])
@@ -158,7 +193,10 @@ Definition answer (w : world) : world * list call :=
       (mkW (w_failover w) (w_store w) (w_nextfw w) (master_kill [t] (w_master w)) (w_mem w)
            (roster_deactivate [t] (w_roster w)) (w_envs w) (w_ntask w) (w_nenv w) rest,
        [CKill t])
-    else (set_w_pending w rest, [])
+    else
+      (mkW (w_failover w) (w_store w) (w_nextfw w) (w_master w) (w_mem w)
+           (if memN s status_activating then roster_activate [t] (w_roster w) else w_roster w)
+           (w_envs w) (w_ntask w) (w_nenv w) rest, [])
   end.
 
 (* ---------- crash: the objects of the life are gone, the id is reloaded from the store ---------- *)
@@ -199,6 +237,16 @@ Definition step (w : world) (o : op) : world * list call :=
     let '(w2, c2) := subscribe (crash w1) in
     (w2, c1 ++ c2)
   | OAnswer => answer w
+  | OCreateHeld k s => create_held w k s
+  | ORun t =>
+    if alive_at t (w_master w) then
+      (set_master_roster w (master_state [t] mesos_running (w_master w))
+                         (roster_activate [t] (w_roster w)), [])
+    else (w, [])
+  | OLost t =>
+    if alive_at t (w_master w) then
+      (set_master_roster w (w_master w) (roster_deactivate [t] (w_roster w)), [])
+    else (w, [])
   end.
 
 Fixpoint run (w : world) (ops : list op) : world * list call :=
@@ -353,7 +401,9 @@ Definition mon18 (c : c18_case) : N :=
 (* ---------- branch tags (input distribution) ----------
    0 no subscription in the script            1 reconnection while tasks are owned
    2 restart with live tasks at the master    3 restart / reconnection with nothing at stake
-   4 the store was tampered with              5 failover disabled *)
+   4 the store was tampered with              5 failover disabled
+   6 reconnection while a roster task locked by an environment is NOT active and alive at the
+     master (launch window, TASK_LOST) *)
 Definition is_sub (o : op) : bool :=
   match o with OReconnect | OCrash _ _ => true | _ => false end.
 
@@ -362,7 +412,9 @@ Fixpoint tag_walk (ops : list op) (before : obs) (rest : list obs) : N :=
   | o :: ops', after :: rest' =>
     let here :=
       match o with
-      | OReconnect => if existsb (fun x => fst (snd x) && snd (snd x)) (o_roster before) then 1 else 3
+      | OReconnect =>
+        if existsb (fun x => fst (snd x) && negb (snd (snd x)) && memN (fst x) (o_alive before)) (o_roster before) then 6
+        else if existsb (fun x => fst (snd x) && snd (snd x)) (o_roster before) then 1 else 3
       | OCrash p _ =>
         match o_alive before, p with
         | [], PIdle | [], PBeforeLaunch => 3
@@ -371,7 +423,8 @@ Fixpoint tag_walk (ops : list op) (before : obs) (rest : list obs) : N :=
       | _ => 0
       end in
     let later := tag_walk ops' after rest' in
-    if N.eqb here 1 then 1 else if N.eqb later 1 then 1
+    if N.eqb here 6 then 6 else if N.eqb later 6 then 6
+    else if N.eqb here 1 then 1 else if N.eqb later 1 then 1
     else if N.eqb here 2 then 2 else if N.eqb later 2 then 2
     else N.max here later
   | _, _ => 0
@@ -397,7 +450,8 @@ Definition no_tamper (ops : list op) : bool := forallb (fun o => negb (is_tamper
 (* ordinary activity of one life: no (re)subscription, no teardown stuck half-way, no tampering *)
 Definition tame (o : op) : bool :=
   match o with
-  | OCreate _ | OStart _ | ODestroy _ _ | ODie _ | OMesosState _ _ | OCleanup | OAnswer => true
+  | OCreate _ | OStart _ | ODestroy _ _ | ODie _ | OMesosState _ _ | OCleanup | OAnswer
+  | OCreateHeld _ _ | ORun _ | OLost _ => true
   | ODestroyStuck _ | OStoreSet _ | OReconnect | OCrash _ _ => false
   end.
 
